@@ -41,6 +41,9 @@ type Ctx struct {
 	// MaxChoices bounds the number of choice points at which alternatives are
 	// recorded (0 = unlimited). Executions still run to completion.
 	MaxBranchPoints int
+	// Follow: replay mode, take at every choice point the option with the next label of this list
+	// (used to re-execute a recorded violation from its list of choices).
+	Follow []string
 }
 
 func NewCtx(prefix []PStep) *Ctx { return &Ctx{prefix: prefix} }
@@ -49,7 +52,17 @@ func NewCtx(prefix []PStep) *Ctx { return &Ctx{prefix: prefix} }
 func (c *Ctx) Choose(opts []Option) int {
 	n := len(c.Trace)
 	idx := 0
-	if n < len(c.prefix) {
+	if c.Follow != nil && n < len(c.Follow) {
+		found := false
+		for i, o := range opts {
+			if o.Label == c.Follow[n] {
+				idx, found = i, true
+			}
+		}
+		if !found && c.Diverged == "" {
+			c.Diverged = fmt.Sprintf("choice point %d: recorded choice %q is not offered", n, c.Follow[n])
+		}
+	} else if n < len(c.prefix) {
 		p := c.prefix[n]
 		idx = p.Chosen
 		if idx >= len(opts) || opts[idx].Label != p.Label {
